@@ -138,7 +138,7 @@ def journal_seq(outdir):
         return 0
 
 
-CRASH_RE = re.compile(r"(fatal error: [^\n]*|unexpected signal[^\n]*|panic: [^\n]*|SIGSEGV[^\n]*|signal: [a-z ]+|runtime: out of memory[^\n]*|found bad pointer[^\n]*|checkptr: [^\n]*)")
+CRASH_RE = re.compile(r"(WARNING: DATA RACE|fatal error: [^\n]*|unexpected signal[^\n]*|panic: [^\n]*|SIGSEGV[^\n]*|signal: [a-z ]+|runtime: out of memory[^\n]*|found bad pointer[^\n]*|checkptr: [^\n]*)")
 
 
 class Shard:
@@ -152,6 +152,8 @@ class Shard:
         env.update({"VERIF_OUT": self.out, "VERIF_TIER": tier, "VERIF_SEED": str(seed), "VERIF_SHARD": str(idx),
                     "VERIF_NSHARDS": str(nshards), "VERIF_ACTIVE": ",".join(sorted(active)), "VERIF_VARIANT": variant["name"],
                     "VERIF_ROOT": VERIF})
+        if variant.get("race"):
+            env["GORACE"] = "halt_on_error=1 exitcode=66"
         env.update(variant.get("env", {}))
         env.update(extra_env or {})
         self.logpath = os.path.join(self.out, "log.txt")
@@ -174,10 +176,13 @@ class Shard:
         seq = journal_seq(self.out)
         cpu = cpu_seconds(self.proc.pid) or 0.0
         if seq != self.last_seq:
-            self.last_seq, self.cpu_at_seq = seq, cpu
+            self.last_seq, self.cpu_at_seq, self.wall_at_seq = seq, cpu, time.time()
         elif hang_cpu and cpu - self.cpu_at_seq > hang_cpu:
             self.hung = True
             self.kill("hang: %.0fs CPU without progress" % (cpu - self.cpu_at_seq))
+        elif self.variant.get("stall_wall") and time.time() - getattr(self, "wall_at_seq", self.t0) > self.variant["stall_wall"] and cpu - self.cpu_at_seq < 2.0:
+            self.hung = True
+            self.kill("deadlock: %.0fs without progress and without CPU use" % (time.time() - getattr(self, "wall_at_seq", self.t0)))
         if wall_limit and time.time() - self.t0 > wall_limit and self.proc.poll() is None:
             self.kill("wall budget %.0fs exceeded" % wall_limit)
         return self.proc.poll()
@@ -408,6 +413,18 @@ def cmd_check(args):
         if s.fails and "FAIL" in s.log and not crashed_log(s.log):
             continue  # ordinary test failure, already recorded
         crash = first_crash_line(s.log)
+        if "WARNING: DATA RACE" in s.log:
+            k = s.log.index("WARNING: DATA RACE")
+            report = s.log[k:k + 6000]
+            report = report.split("==================")[0]
+            if "github.com/goccy/go-json" in report:
+                body, _ = read_journal(s.out)
+                pl = journal_payload(prop, s, body, "the race detector reports a data race inside go-json: " + " <- ".join(l.strip() for l in report.splitlines()[1:6]))
+                pl["subcheck"] = "data-race"
+                violations.append(pl)
+            else:
+                infra.append("shard %s/%d: data race outside go-json (harness):\n%s" % (s.variant["name"], s.idx, report[:1500]))
+            continue
         if crash or s.rc < 0 or s.rc not in (0, 1):
             if "cannot allocate memory" in s.log and "runtime: out of memory" not in s.log and not crash:
                 infra.append("shard %s/%d: ENOMEM" % (s.variant["name"], s.idx))
